@@ -162,6 +162,38 @@ CLAIMED["C18"] = {
     "design_ref": "DESIGN.md section 5 C18",
 }
 
+CLAIMED["C03"] = {
+    "level": "model_checking",
+    "text": "SbaBin.tla transcribes one size class (LIFO free list, working-page cursor, active pages, alloc counts, purge of a page's "
+            "chunks when it is given back) and TLC checks for every acquire/release history (2-3 chunks per page, 4-5 pages): live chunks "
+            "distinct, never on the free list, never in a returned page, counts exact, only the working page kept when idle. The real "
+            "allocator is then driven through acquire/calloc/realloc/release histories with sizes around every class boundary and "
+            "page fill/drain/refill cycles in the real geometry, single-threaded and with 2-3 threads under the controlled scheduler "
+            "(bounded-preemption exploration + PCT/random; allocation calls are schedule points); every block is filled with a "
+            "pattern over its requested size and all blocks are re-verified after every operation. TLC validates each trace against "
+            "Sba.tla: alignment, no overlap with any live block, contents intact, realloc prefix kept, bytes_active = sum of classes "
+            "of live small blocks, <= 5 pages reserved when nothing small is live, nothing left after destroy (LeakSanitizer).",
+    "note": "SC serialised execution (races on plain memory invisible); byte counts compared at quiescent points only; overlap judged "
+            "per 4096-byte page on the requested size. Trusted: vsched, adapter's page-ordinal map, ASan/LSan, TLC.",
+    "technique": "TLA+ specs (SbaBin.tla impl-shaped, Sba.tla abstract) + TLC; controlled-scheduler executions validated by TLC (SbaTrace.tla)",
+    "design_ref": "DESIGN.md section 5 C03",
+}
+CLAIMED["C17"] = {
+    "level": "model_checking",
+    "text": "MemTrace.tla transcribes the tracking protocol (atomic add, table update under the lock, untrack before the address is "
+            "given back, track after it is obtained) over an inner allocator that recycles addresses; TLC checks in every interleaving "
+            "of two threads that the table only holds live addresses and that bytes/count are exact at quiescence. The real tracer "
+            "(levels off/bytes/stacks, stack depths 0..200) is driven through acquire/calloc/realloc(grow, shrink, same, to zero)/"
+            "release/dump histories, single-threaded and with 2-3 threads under the controlled scheduler, over a harness allocator "
+            "that deliberately reuses addresses; TLC validates each trace against MemTraceAbs.tla: bytes = sum of requested sizes "
+            "and count = number of live blocks at every quiescent point (zero at level off and after everything is released), dump "
+            "changes nothing, contents kept across realloc, calloc zeroed, wrapped allocator returned by destroy, no leak.",
+    "note": "SC serialised execution; counts compared at quiescent points only (a concurrent query may see a call half done). "
+            "Trusted: vsched, harness allocator, ASan/LSan, TLC.",
+    "technique": "TLA+ specs (MemTrace.tla impl-shaped, MemTraceAbs.tla abstract) + TLC; controlled-scheduler executions validated by TLC (MemTraceTrace.tla)",
+    "design_ref": "DESIGN.md section 5 C17",
+}
+
 NOT_YET = "check not built yet (work in progress in this session; see DESIGN.md section 8 build order)"
 NOT_APPLICABLE = {}
 ALL = ["C%02d" % i for i in range(1, 21)]
